@@ -75,7 +75,7 @@ class C09(StdCheck):
     eval_key = "steps"
     max_shrunk = 2
     required_theorems = [
-        "macro_terminates", "depth_bounded", "fuel_monotone", "dollar_escape", "verbatim_insertion", "lone_macro_verbatim",
+        "macro_terminates", "depth_bounded", "depth_bounded_array", "fuel_monotone", "dollar_escape", "verbatim_insertion", "lone_macro_verbatim",
         "argv_shape_independent_of_values", "each_value_one_element", "optional_missing_drops_only_its_argument",
         "required_missing_fails", "cached_path_equals_direct_partial", "cached_path_nested_missing_counterexample",
         "model_block_meets_layout_spec", "shell_quote_roundtrip", "shell_quote_one_word", "shell_quote_needs_unquoted_counterexample",
@@ -117,7 +117,8 @@ class C09(StdCheck):
         "the `arguments` dictionary iterates in bytewise key order (std::map<String, …>); at most 16 arguments (libstdc++ insertion sort is stable)",
     ]
     rule = ("exhaustive: ExitStatusToState on -3..300; custom-variable chains of depth 10..18 from entry levels 0..3 (recursion limit), self and "
-            "mutual recursion. seeded random: cases of custom variables on service/host/command (strings with `$$`, nested macro references, "
+            "mutual recursion, cycles in which every hop is an array; real timeouts (1 s) with plugins that die on SIGTERM, trap it and exit "
+            "0/1/2/3, or ignore it. Every operation runs in a forked child: a crash or hang is a per-operation `no_crash` failure. seeded random: cases of custom variables on service/host/command (strings with `$$`, nested macro references, "
             "malformed `$`, arrays, Empty, a variable named \"\"), attributes (address, display_name, notes, …: arbitrary bytes incl. lone `$`), "
             "each followed by ResolveMacros calls (levels 0..15, with/without shell escaping) and ResolveArguments calls (array / string command "
             "lines, dictionaries of 0..5 arguments with key, value, set_if, required, skip_key, repeat_key, order ties, separator incl. \"\"); "
